@@ -129,15 +129,19 @@ class BuildLock:
         self.f.close()
 
 
-def regenerate(res: BuildResult):
-    """Run the fail-closed translator: /repo -> coq/theories/Gen/*.v."""
+def regenerate(res: BuildResult, needed=None):
+    """Run the fail-closed translator: /repo -> coq/theories/Gen/*.v.  `needed` = names of the Gen
+    files the property depends on (None = all): a refusal on another table does not concern it."""
     env = dict(os.environ, PYTHONPATH=str(REPO), PYTHONHASHSEED="0")
     rc, out, err = sh([PY, str(VERIF / "tools" / "translate.py"), str(REPO), str(COQ / "theories" / "Gen")], 120, env=env)
     if rc != 0:
-        res.ok = False
-        res.translator_error = (out + err)[-3000:]
-        res.failed_target = "translator"
-    return rc == 0
+        refused = set(re.findall(r"^translator:(\w+): refused", out, flags=re.M))
+        if needed is None or not refused or (refused & set(needed)):
+            res.ok = False
+            res.translator_error = (out + err)[-3000:]
+            res.failed_target = "translator:" + ",".join(sorted(refused & set(needed or refused)) or ["?"])
+            return False
+    return True
 
 
 def make(targets, res: BuildResult, jobs=16, timeout=1500, clean=False):
